@@ -81,11 +81,12 @@ def handle (j : Json) : Json :=
     let complete := tr.getLast? == some Ev.complete
     let mOrd := repOrd true fwd inp.noAct nf
     -- a run aborted by a reported runtime error (InvalidTask raised while the action objects of a task are created) may
-    -- leave that task announced although its actions never started and it has no final report
+    -- leave that task announced although its actions never started, or (process runner) a task in flight whose
+    -- forwarded report was still on the queue: only tasks WITH a final report are bound by the iff then
     let mExec := !complete || execIffStart inp.noAct n tr ||
       (opts.runtimeErr && (List.range n).all fun t =>
         inp.noAct t || tr.countP (Ev.isExecOf t) == tr.countP (Ev.isStartOf t) ||
-        (!tr.any (Ev.isStartOf t) && !tr.any (Ev.isTerminalOf t) && tr.countP (Ev.isExecOf t) == 1))
+        (!tr.any (Ev.isTerminalOf t) && tr.countP (Ev.isExecOf t) ≤ 1 && tr.countP (Ev.isStartOf t) ≤ 1))
     let mTruth := truthOrd inp n nf
     let mFin := !(complete && exit ≤ 2) || opts.runtimeErr || finReported n tr
     let halt : Halt := if errS = "" then .none else if errS = "cyclic" then .cyclic else .crash
